@@ -657,7 +657,22 @@ fn check_type(ctx: &Ctx, rng: &mut Rng, st: &mut St) {
                     "Evaluator::set_literal",
                     Box::new(|| {
                         let mut ev = prg.evaluator();
-                        ev.set_literal(l.clone()).map_err(|e| format!("{e:?}"))?;
+                        if let Err(e) = ev.set_literal(l.clone()) {
+                            // a refusal has no side effect: the same evaluator still takes the
+                            // canonical literal for this parameter and runs to the canonical output
+                            let retry = (|| -> Result<Vec<bool>, String> {
+                                ev.set_literal(canon_lit.clone()).map_err(|e| format!("set_literal(canonical) after a refusal: {e:?}"))?;
+                                ev.set_bool(false);
+                                let o = ev.run().map_err(|e| format!("run after a refusal: {e:?}"))?;
+                                Vec::<bool>::try_from(o).map_err(|e| format!("output after a refusal: {e:?}"))
+                            })();
+                            match retry {
+                                Ok(bits) if bits == canon_bits => {}
+                                Ok(_) => panic!("harness-verdict: after a refused literal the evaluator computes another output for the canonical literal"),
+                                Err(why) => panic!("harness-verdict: a refused literal leaves the evaluator in a state that refuses the canonical literal ({why})"),
+                            }
+                            return Err(format!("{e:?}"));
+                        }
                         ev.set_bool(false);
                         let o = ev.run().map_err(|e| format!("run: {e:?}"))?;
                         let bits: Vec<bool> = Vec::<bool>::try_from(o).map_err(|e| format!("output: {e:?}"))?;
